@@ -17,9 +17,12 @@ import threading
 from . import common
 
 PROP = "C19"
-RULE = ("random histories of seek(set/cur/end)/tell/read(n) over resources "
-        "whose size is around multiples of the chunk size, chunk sizes 1..64, "
-        "keep_chunks 1..8, three behaviours of the server for invalid ranges; "
+RULE = ("random histories of seek(set/cur/end)/tell/read(n)/read(None)/read() "
+        "over resources whose size is around multiples of the chunk size, "
+        "chunk sizes 1..64, keep_chunks 1..8, four behaviours of the server "
+        "for invalid ranges (empty, whole body, fixed bytes, RFC 7233 "
+        "clipping); plus the operations h5py issues on generated .rtdc "
+        "files replayed through the model; "
         "a case is non-trivial when it performs at least one read that "
         "returns data and touches at least two different chunks; distinct = "
         "different (resource size, chunk size, keep, ops)")
@@ -28,7 +31,11 @@ TRUSTED_BASE = [
     "ranges with arbitrary bytes (three variants exercised)",
     "h5py is a function of the bytes it reads (RTDC_HTTP vs RTDC_HDF5 "
     "compared by value, not proved)",
-    "not modelled: retries/timeouts of ResoluteRequestsSession, ETag handling",
+    "not modelled: retries/timeouts of ResoluteRequestsSession, ETag handling "
+    "(an ETag-less server is exercised by the loopback check only)",
+    "the eviction policy is deliberately NOT part of the correspondence: the "
+    "theorems hold for every policy meeting policy_ok, and only bytes, "
+    "positions and the number of chunks held are compared",
 ]
 ASSUMPTIONS = ["positions stay non-negative (a real file object rejects "
                "negative seeks; generator and theorem exclude them)",
@@ -37,11 +44,27 @@ ASSUMPTIONS = ["positions stay non-negative (a real file object rejects "
 
 class FakeResponse:
     def __init__(self, content, status=200, headers=None):
+        from requests.structures import CaseInsensitiveDict
         self.content = content
         self.status_code = status
         self.reason = "OK"
         self.ok = True
-        self.headers = headers or {}
+        self.headers = CaseInsensitiveDict(headers or {})
+
+
+def watch_peak(f):
+    """Record in f.peak the largest number of chunks the cache ever holds,
+    including the moment between storing a downloaded chunk and evicting
+    another one: a chunk is stored right after it was downloaded, so the
+    count at a download plus one is the count after the insertion. The
+    cache object itself is left untouched."""
+    f.peak = len(f.cache)
+    orig = type(f).download_range.__get__(f)
+
+    def download_range(a, b):
+        f.peak = max(f.peak, len(f.cache) + 1)
+        return orig(a, b)
+    f.download_range = download_range
 
 
 class FakeSession:
@@ -54,12 +77,17 @@ class FakeSession:
         self.junk_mode = junk_mode
         self.requests = []
 
-    def junk(self):
+    def junk(self, a=0, b=0):
         if self.junk_mode == 0:
             return b""
         if self.junk_mode == 1:
             return self.blob
-        return bytes([255, 254, 253, 252, 251])
+        if self.junk_mode == 2:
+            return bytes([255, 254, 253, 252, 251])
+        # RFC 7233: a range end beyond the length is clipped
+        if 0 <= a < len(self.blob) and a < b:
+            return self.blob[a:]
+        return b""
 
     def get(self, url, headers=None, **kwargs):
         rng = (headers or {}).get("Range")
@@ -74,7 +102,7 @@ class FakeSession:
         a, b = int(m.group(1)), int(m.group(2)) + 1
         if 0 <= a < b <= len(self.blob):
             return FakeResponse(self.blob[a:b], status=206)
-        return FakeResponse(self.junk())
+        return FakeResponse(self.junk(a, b))
 
     def close(self):
         pass
@@ -116,12 +144,14 @@ def make_file(blob, cs, keep, junk_mode, cls="http"):
         f.s3_object = FakeS3Object(blob, junk_mode)
         f.session = FakeSession(blob, junk_mode)  # must not be used
         f.fake = f.s3_object.sess
+        watch_peak(f)
         return f
     from dclab.http_utils import HTTPFile
     f = HTTPFile("http://verif.invalid/blob.rtdc", chunk_size=cs,
                  keep_chunks=keep)
     f.session = FakeSession(blob, junk_mode)
     f.fake = f.session
+    watch_peak(f)
     return f
 
 
@@ -137,7 +167,7 @@ def gen_case(rng, thorough=False):
     if rng.random() < 0.05:
         n = 0
     salt = rng.randint(0, 50)
-    mode = rng.choice([0, 1, 1, 2])
+    mode = rng.choice([0, 1, 1, 2, 3])
     ops = []
     pos = 0
     nops = rng.randint(1, 40 if thorough else 25)
@@ -146,7 +176,9 @@ def gen_case(rng, thorough=False):
         if r < 0.5:
             c = rng.random()
             if c < 0.08:
-                size = -1
+                size = rng.choice([-1, -1, -2, -7])
+            elif c < 0.11:
+                size = None          # read(None) / read()
             elif c < 0.15:
                 size = 0
             elif c < 0.3:
@@ -156,7 +188,11 @@ def gen_case(rng, thorough=False):
                 size = max(0, n - pos) + rng.choice([0, 0, 1, cs])
             else:
                 size = rng.randint(1, 3 * cs + 2)
-            ops.append([2, size, 0])
+            if size is None:
+                ops.append([rng.choice([3, 4]), 0, 0])
+                size = -1
+            else:
+                ops.append([2, size, 0])
             if size < 0:
                 size = max(n - pos, 0)
             pos += max(0, min(pos + size, n) - pos)
@@ -203,23 +239,30 @@ def run_impl(case):
                     fail = "op %d: tell() = %d, a plain file is at %d" % (
                         i, p, ref.tell())
             else:
-                d = f.read(a)
-                want = ref.read(a)
+                if tag == 3:
+                    d = f.read(None)
+                    want = ref.read(None)
+                elif tag == 4:
+                    d = f.read()
+                    want = ref.read()
+                else:
+                    d = f.read(a)
+                    want = ref.read(a)
                 flat += [2, len(d)] + list(d)
                 if len(d):
                     data_reads += 1
                 if bytes(d) != want and fail is None:
-                    fail = ("op %d: read(%d) returned %d bytes %r..., the "
+                    fail = ("op %d: read(%s) returned %d bytes %r..., the "
                             "resource has %d bytes %r... there" % (
-                                i, a, len(d), bytes(d[:8]), len(want),
-                                want[:8]))
+                                i, {3: "None", 4: ""}.get(tag, a), len(d),
+                                bytes(d[:8]), len(want), want[:8]))
         except KeyError:
             flat += [3]
             if fail is None:
                 fail = "op %d raised KeyError" % i
             # the reference file performs the op so that later ops compare
-            if tag == 2:
-                ref.read(a)
+            if tag >= 2:
+                ref.read(a if tag == 2 else -1)
         except Exception as e:  # any other error
             flat += [4]
             if fail is None:
@@ -227,10 +270,15 @@ def run_impl(case):
             break
         held = len(f.cache)
         maxheld = max(maxheld, held)
+        f.peak = max(f.peak, held)
         if held > case["keep"] and fail is None:
             fail = "after op %d the cache holds %d chunks, keep_chunks=%d" % (
                 i, held, case["keep"])
-    flat += [9, maxheld]
+    peak = max(f.peak, maxheld)
+    if peak > case["keep"] + 1 and fail is None:
+        fail = ("the cache held %d chunks at some moment, keep_chunks=%d"
+                % (peak, case["keep"]))
+    flat += [9, maxheld, peak]
     nontrivial = data_reads > 0 and maxheld >= 1 and \
         len(set(r for r in f.fake.requests)) >= 2
     return flat, fail, nontrivial
@@ -278,7 +326,8 @@ def run(run):
         run.count("junk_mode=%d" % c["mode"])
         run.count("class=%s" % c.get("cls", "http"))
         for o in c["ops"]:
-            run.count(["op:seek", "op:tell", "op:read"][o[0]])
+            run.count(["op:seek", "op:tell", "op:read", "op:read(None)",
+                       "op:read()"][o[0]])
         if fail is not None:
             run.oracle_failure(c, fail, classify(c, fail))
     model = common.coq_map(run.scratch, "c19", HEADER, "run_flat",
@@ -293,7 +342,7 @@ def run(run):
 # --------------------------------------------------------------------------
 # RTDC_HTTP vs RTDC_HDF5 over a local range-capable server
 # --------------------------------------------------------------------------
-def _serve(directory):
+def _serve(directory, with_etag=True):
     import http.server
 
     class H(http.server.BaseHTTPRequestHandler):
@@ -322,7 +371,8 @@ def _serve(directory):
                     status = 206
             self.send_response(status)
             self.send_header("Content-Length", str(len(body)))
-            self.send_header("ETag", '"verif-%d"' % len(data))
+            if with_etag:
+                self.send_header("ETag", '"verif-%d"' % len(data))
             self.send_header("Accept-Ranges", "bytes")
             self.end_headers()
             self.wfile.write(body)
@@ -334,50 +384,168 @@ def _serve(directory):
     return srv
 
 
+def pack_words(blob):
+    """64 bytes per number, little endian (Model/C19.v: unpack_res)"""
+    return [int.from_bytes(blob[k:k + 64], "little")
+            for k in range(0, len(blob), 64)]
+
+
+def checksum(d):
+    acc = 7
+    for x in d:
+        acc = (acc * 31 + x + 1) % 1000000007
+    return acc
+
+
 def http_dataset_check(run):
-    """Generated .rtdc files opened through RTDC_HTTP vs RTDC_HDF5."""
-    import numpy as np
+    """Second sentence of the property. Generated .rtdc files are opened
+    through RTDC_HTTP (the real class; its HTTPFile is given a small chunk
+    size and capacity so that h5py's accesses cross chunk borders and evict)
+    and compared with RTDC_HDF5 on the same file. The operations h5py issued
+    on the HTTPFile are recorded and replayed through the Coq model
+    (run_digest), which ties the adaptive-client theorem to real clients."""
+    import warnings
     try:
         from . import gen
     except Exception as e:  # generator module not available
         run.notes.append("http dataset check skipped: %r" % (e,))
         return
+    import dclab
+    from dclab import http_utils
+    from dclab.rtdc_dataset import fmt_http
+
+    traces = []
+
+    class TracingHTTPFile(http_utils.HTTPFile):
+        """HTTPFile with the chunk geometry of the current case, recording
+        every read/seek/tell together with what it answered."""
+        geometry = (4096, 3)
+
+        def __init__(self, url, *a, **kw):
+            cs, keep = TracingHTTPFile.geometry
+            super().__init__(url, chunk_size=cs, keep_chunks=keep)
+            watch_peak(self)
+            self.trace = []
+            self.maxheld = 0
+            traces.append(self)
+
+        def _held(self):
+            self.maxheld = max(self.maxheld, len(self.cache))
+
+        def read(self, size=-1, /):
+            d = super().read(size)
+            if size is None:
+                self.trace.append(([3, 0, 0], [2, len(d), checksum(d)]))
+            else:
+                self.trace.append(([2, int(size), 0],
+                                   [2, len(d), checksum(d)]))
+            self._held()
+            return d
+
+        def seek(self, offset, whence=os.SEEK_SET):
+            r = super().seek(offset, whence)
+            self.trace.append(([0, int(whence), int(offset)], [0]))
+            return r
+
+        def tell(self):
+            p = super().tell()
+            self.trace.append(([1, 0, 0], [1, int(p)]))
+            return p
+
     d = os.path.join(run.scratch, "http")
     os.makedirs(d, exist_ok=True)
-    nfiles = 6 if run.thorough else 2
+    nfiles = 24 if run.thorough else 8
+    ntrace = 6 if run.thorough else 2
     try:
         srv = _serve(d)
+        srv_noetag = _serve(d, with_etag=False)
     except OSError as e:
         run.notes.append("loopback server unavailable: %r" % (e,))
         return
+    orig = fmt_http.HTTPFile
+    fmt_http.HTTPFile = TracingHTTPFile
+    rendered, expected, tcases = [], [], []
     try:
-        import dclab
-        from dclab.rtdc_dataset import fmt_http
         for k in range(nfiles):
             name = "f%d.rtdc" % k
             path = os.path.join(d, name)
-            spec = gen.random_dataset_spec(run.rng, nevents=run.rng.choice(
-                [1, 7, 40, 130]), kinds=("scalar", "image", "mask", "trace",
-                                         "contour"))
+            small = k < ntrace
+            if small:
+                spec = gen.random_dataset_spec(
+                    run.rng, nevents=run.rng.choice([1, 3, 7]),
+                    kinds=("scalar",), nscalars=run.rng.choice([1, 2, 3]))
+                geometry = (run.rng.choice([512, 1000, 1024]),
+                            run.rng.choice([1, 2, 4]))
+            else:
+                spec = gen.random_dataset_spec(
+                    run.rng, nevents=run.rng.choice([1, 7, 40, 130]),
+                    kinds=("scalar", "image", "mask", "trace", "contour"))
+                geometry = (run.rng.choice([1024, 4096, 5000, 2**16]),
+                            run.rng.choice([1, 2, 3, 8]))
             gen.write_spec(path, spec, logs={"log-a": ["line %d" % i for i in
                                                        range(5)]},
                            tables={"tab": gen.small_table(run.rng)})
-            url = "http://127.0.0.1:%d/%s" % (srv.server_address[1], name)
-            case = dict(kind="http-dataset", spec=gen.spec_summary(spec))
+            etag = run.rng.random() < 0.75
+            port = (srv if etag else srv_noetag).server_address[1]
+            url = "http://127.0.0.1:%d/%s" % (port, name)
+            case = dict(kind="http-dataset", spec=gen.spec_summary(spec),
+                        chunk_size=geometry[0], keep_chunks=geometry[1],
+                        etag=etag, size=os.path.getsize(path))
+            TracingHTTPFile.geometry = geometry
+            del traces[:]
             try:
-                with dclab.new_dataset(path) as loc, \
-                        fmt_http.RTDC_HTTP(url) as rem:
-                    diff = gen.compare_datasets(loc, rem)
+                with warnings.catch_warnings():
+                    warnings.simplefilter("ignore")
+                    with dclab.new_dataset(path) as loc, \
+                            fmt_http.RTDC_HTTP(url) as rem:
+                        diff = gen.compare_datasets(loc, rem)
             except Exception as e:
                 diff = "exception %r" % (e,)
             run.record_case(case, True, sample=False)
             run.count("http-dataset")
+            run.count("http-dataset:cs=%d" % geometry[0])
+            run.count("http-dataset:etag=%s" % etag)
             if diff:
                 run.oracle_failure(case, "RTDC_HTTP differs from RTDC_HDF5: "
                                    + str(diff))
+            for t in traces:
+                if t.maxheld > geometry[1] or t.peak > geometry[1] + 1:
+                    run.oracle_failure(case, "h5py session: %d chunks held "
+                                       "(peak %d), keep_chunks=%d" % (
+                                           t.maxheld, t.peak,
+                                           geometry[1]))
+            if small and traces:
+                t = max(traces, key=lambda t: len(t.trace))
+                blob = open(path, "rb").read()
+                ops = [o for o, _ in t.trace][:4000]
+                outs = [x for _, r in t.trace[:4000] for x in r]
+                tc = dict(kind="h5py-trace", size=len(blob),
+                          cs=geometry[0], keep=geometry[1], nops=len(ops))
+                tcases.append((tc, t))
+                run.count("h5py-trace ops", len(ops))
+                rendered.append("(%s, %d, %d, %d, [%s])" % (
+                    common.zlist(pack_words(blob)), len(blob), geometry[0],
+                    geometry[1], "; ".join(
+                        "(%s, %s, %s)" % tuple(common.zlit(x) for x in o)
+                        for o in ops)))
+                expected.append(outs)
     finally:
-        srv.shutdown()
-        srv.server_close()
+        fmt_http.HTTPFile = orig
+        for s_ in (srv, srv_noetag):
+            s_.shutdown()
+            s_.server_close()
+    if rendered:
+        model = common.coq_map(run.scratch, "c19trace", HEADER, "run_digest",
+                               rendered, shard=1)
+        for (tc, t), m, e in zip(tcases, model, expected):
+            run.corr_checked += 1
+            run.record_case(tc, True, sample=False)
+            # the model appends [9; maxheld; peak]; the session only bounds
+            # them (h5py's own calls are not observed in between)
+            if m[:-3] != e:
+                run.mismatch(tc, m[:40], e[:40])
+            elif m[-2] > tc["keep"] or m[-1] > tc["keep"] + 1:
+                run.mismatch(tc, m[-3:], [9, tc["keep"], tc["keep"] + 1])
 
 
 # --------------------------------------------------------------------------
